@@ -59,6 +59,7 @@ type CaseResult struct {
 	Samples     []map[string]any        `json:"-"`
 	PanicsSeen  []string                `json:"panics_caught,omitempty"`
 	EngineError string                  `json:"engine_error,omitempty"`
+	Skipped     bool                    `json:"skipped,omitempty"`
 }
 
 type HarnessSpec struct {
@@ -111,7 +112,11 @@ func (e *Exec) resetPath(dec []int64, no int) {
 	e.resetOpaque()
 	e.opaque["crosscheck"] = cross
 	e.opaque["pathno"] = no
+	if e.cfg.HMACFresh {
+		e.opaque["hmacfresh"] = true
+	}
 	e.pc = nil
+	e.randStreams = nil
 	e.pcKind = nil
 	e.decisions = dec
 	e.decPos = 0
@@ -252,6 +257,8 @@ func exploreCase(prog *ssa.Program, hs *HarnessSpec, cases map[string]int64, bas
 				}
 			}
 		case "infeasible":
+		case "skipped":
+			res.Skipped = true
 		case "violated":
 		case "panic":
 			// an uncaught Go panic reached the top of the harness: a violation with a model of the path
